@@ -736,3 +736,46 @@ func shortMsg(m string) string {
 	}
 	return m
 }
+
+// RulerOrigins: C06.O5 (ruler part) - the rule runner produces no APPROVED of its own: every verdict it returns is
+// a rules-service result or a non-approving constant.
+func (c *Ctx) RulerOrigins(prop string) {
+	r := c.Ruler(prop + ".anchors")
+	s := c.Slashing(prop + ".anchors")
+	if !r.OK() || !s.OK() {
+		return
+	}
+	rule := "C06.O5 ruler.no-own-approval"
+	var origins []Origin
+	for _, ret := range an.Returns(r.RunRules) {
+		origins = append(origins, ElemOrigins(an.Result(ret, 0), ret)...)
+	}
+	nconst, ninv, bad := 0, 0, 0
+	seen := map[ssa.Instruction]bool{}
+	for _, o := range origins {
+		if seen[o.Site] {
+			continue
+		}
+		seen[o.Site] = true
+		switch o.Kind {
+		case "const":
+			nconst++
+			if o.Const == s.APPROVED {
+				bad++
+				c.R.Fail(rule, Fn(o.Fn), c.Pos(o.Site), "the rule runner itself produces APPROVED (not the rules service)", "only rules-service results or FAILED/UNKNOWN", nil)
+			}
+		case "opaque":
+			call, ok := o.Val.(*ssa.Call)
+			if ok && call.Call.IsInvoke() && namedIs(call.Call.Value.Type(), pkgRules, "Service") {
+				ninv++
+				continue
+			}
+			bad++
+			c.R.Unknown(rule, Fn(o.Fn)+":"+an.Term(o.Val), c.Pos(o.Site), "a verdict returned by the rule runner comes from a value that is neither a constant nor a rules-service result: "+an.Term(o.Val))
+		}
+	}
+	c.R.Floor(rule, "rules-service results among the verdict origins", ninv, 9)
+	if bad == 0 {
+		c.R.OK(rule, Fn(r.RunRules), c.P.FuncPos(r.RunRules), fmt.Sprintf("verdict origins: %d rules-service invokes, %d non-approving constants", ninv, nconst))
+	}
+}
